@@ -244,7 +244,17 @@ async fn serve_request<IB: Body>(
                 serve_metrics(req).await
             }
         }
-        (&Method::GET, "/api/v1/leases.json") => serve_leases(req, &dhcp).await,
+        (&Method::GET, "/api/v1/leases.json") => {
+            if let Some(ret) = require_http_permission(
+                &conf.read().await.acls,
+                &client,
+                acl::PermissionType::HttpLeases,
+            ) {
+                Ok(ret)
+            } else {
+                serve_leases(req, &dhcp).await
+            }
+        }
         _ => {
             if let Some(ret) = require_http_permission(
                 &conf.read().await.acls,
